@@ -401,6 +401,8 @@ def classify_crash(err, rc):
         return "tsan"
     if "HARNESS-INTERNAL" in err:
         return "harness-internal"
+    if "OP-TIMEOUT" in err:
+        return "timeout"
     return "exit%d" % rc
 
 
